@@ -1,8 +1,8 @@
 package props
 
 import (
-	"verif/checker/internal/engb"
 	"fmt"
+	"verif/checker/internal/engb"
 
 	"verif/checker/internal/absint"
 	"verif/checker/internal/core"
